@@ -6,6 +6,7 @@ harness can compare up to isomorphism and, with retained names, the names as set
 -/
 import AutomataVerif.Driver.Proto
 import AutomataVerif.Model.DFACompare
+import AutomataVerif.Model.DFAEqPick
 import AutomataVerif.Model.Convert
 
 namespace AV.Driver.DfaOps
@@ -129,6 +130,21 @@ def dfaCmp : P String := do
   | .ok c => pure ("ok " ++ " ".intercalate
       ([c.eq, c.ne, c.le, c.lt, c.ge, c.gt, c.sub, c.sup, c.disj].map showBool))
 
+def showEqRes : DFA.EqRes → String
+  | .notImplemented => "NI"
+  | .outOfFuel => "FUEL"
+  | .val b => showBool b
+
+/-- `==` through the pick-parametric Hopcroft–Karp loop: networkx's policy with both
+tie-breaks, the two constant policies, and the fixed-direction `eqv`. -/
+def dfaEqPick : P String := do
+  let A ← dfa
+  let B ← dfa
+  pure (" ".intercalate [
+    showEqRes (A.eqvNx (fun _ _ => true) B), showEqRes (A.eqvNx (fun _ _ => false) B),
+    showEqRes (A.eqvPick (fun _ _ _ => true) B), showEqRes (A.eqvPick (fun _ _ _ => false) B),
+    match A.eqv B with | none => "NI" | some b => showBool b])
+
 def dfaEmptyFin : P String := do
   let A ← dfa
   pure (" ".intercalate [showBool A.isempty, showBool A.isfinite,
@@ -152,6 +168,7 @@ def handle (cmd : String) (args : List String) : Except String String :=
   | "DFA_TO_COMPLETE" => run dfaToComplete args
   | "DFA_COMPLEMENT" => run dfaComplement args
   | "DFA_CMP" => run dfaCmp args
+  | "DFA_EQ_PICK" => run dfaEqPick args
   | "DFA_EMPTYFIN" => run dfaEmptyFin args
   | "DFA_FROM_NFA" => run fromNfa args
   | "NFA_FROM_DFA" => run (do let d ← dfa; pure ("ok " ++ showNFA (NFA.ofDFA d))) args
